@@ -65,7 +65,8 @@ Bases ==
     b3 |-> << C("struct", "a", "foo", "Foo", <<F("x", "int")>>, NoRes, FALSE),
               C("func", "a", "get", "", <<F("id", "int")>>, [k |-> "int", a |-> 0], FALSE),
               C("struct", "x", "point", "", <<F("a", "int"), F("b", "int")>>, NoRes, TRUE),
-              C("func", "x", "getPoint", "", <<F("id", "int")>>, [k |-> "int", a |-> 0], TRUE) >>,
+              \* TL2 functions must carry a magic
+              [C("func", "x", "getPoint", "", <<F("id", "int")>>, [k |-> "int", a |-> 0], TRUE) EXCEPT !.tag = [k |-> "fresh", a |-> 4, b |-> 0]] >>,
     b4 |-> << C("variant", "", "shapeCircle", "Shape", <<F("r", "int")>>, NoRes, FALSE),
               C("variant", "", "shapeSquare", "Shape", <<F("s", "long")>>, NoRes, FALSE),
               C("struct", "b", "item", "Item", <<F("x", "string")>>, NoRes, FALSE),
